@@ -54,7 +54,8 @@ func (p *C17) Gen(seed uint64, i int, tier string) *scen.Scenario {
 	)
 	var usedV []int
 	var usedT []string
-	fresh := []string{"notice", "NOTICE", "Swell", "audit1", "Hint", "VERBOSE1", "x", "lvl-long-title", "Crit", "spam"}
+	fresh := []string{"notice", "NOTICE", "Swell", "audit1", "Hint", "VERBOSE1", "x", "lvl-long-title", "Crit", "spam",
+		" lead", "trail ", "two words", "tab\tbed", "dot.ted", "UPPER lower", "q?", "  "}
 	tk := 0
 	n := r.Range(1, 15)
 	for k := 0; k < n; k++ {
